@@ -225,6 +225,8 @@ async fn update_provision_state(
     agent_status_shared_state: AgentStatusSharedState,
 ) {
     if let Ok(provision_state) = provision_shared_state.update_one_state(state).await {
+        #[cfg(gpa_verif)]
+        crate::verif_hook::delay_point("provision_update").await;
         if provision_state.contains(ProvisionFlags::ALL_READY) {
             if let Err(e) = provision_shared_state.set_provision_finished(true).await {
                 // log the error and continue
@@ -269,6 +271,8 @@ async fn reset_provision_state(
             return;
         }
     };
+    #[cfg(gpa_verif)]
+    crate::verif_hook::delay_point("provision_reset").await;
     if let Err(e) = provision_shared_state
         .set_provision_finished(provision_state.contains(ProvisionFlags::ALL_READY))
         .await
@@ -298,6 +302,8 @@ pub async fn provision_timeup(
         .get_state()
         .await
         .unwrap_or(ProvisionFlags::NONE);
+    #[cfg(gpa_verif)]
+    crate::verif_hook::delay_point("provision_timeup").await;
     if !provision_state.contains(ProvisionFlags::ALL_READY) {
         if let Err(e) = provision_shared_state.set_provision_finished(true).await {
             logger::write_error(format!("Failed to set provision finished with error: {e}"));
